@@ -16,7 +16,7 @@ import (
 type Event struct {
 	Seq      int       `json:"seq"`
 	Ref      int       `json:"ref,omitempty"` // write-ack: Seq of the write event it answers
-	T        int64     `json:"t"` // simulated ns since the epoch of the run
+	T        int64     `json:"t"`             // simulated ns since the epoch of the run
 	Gen      int       `json:"g"`
 	Kind     string    `json:"k"`
 	Obj      string    `json:"o,omitempty"`
@@ -97,6 +97,11 @@ type World struct {
 	failWrite  int
 	totalWrite int
 
+	// finalCh[i] is closed when the engine arrives at the first terminal write of plan i
+	finalCh map[int]chan struct{}
+	// primaryDone is closed when every client that does not wait for such a signal is done
+	primaryDone chan struct{}
+
 	// plugin invocation counters per action path
 	inv map[string]int
 
@@ -116,19 +121,21 @@ type World struct {
 
 func NewWorld(spec *RunSpec) *World {
 	w := &World{
-		Spec:     spec,
-		wake:     make(chan struct{}, 1),
-		stop:     make(chan struct{}),
-		stopped:  make(chan struct{}),
-		sched:    NewRng(spec.SchedSeed),
-		forced:   spec.Decisions,
-		maxSteps: 200000,
-		epoch:    time.Now(),
-		inv:      map[string]int{},
-		paths:    map[[16]byte]string{},
-		Faults:   map[string]int{},
-		Probes:   map[string]int{},
-		crashCh:  make(chan struct{}, 1),
+		Spec:        spec,
+		wake:        make(chan struct{}, 1),
+		stop:        make(chan struct{}),
+		stopped:     make(chan struct{}),
+		sched:       NewRng(spec.SchedSeed),
+		forced:      spec.Decisions,
+		maxSteps:    200000,
+		epoch:       time.Now(),
+		inv:         map[string]int{},
+		paths:       map[[16]byte]string{},
+		Faults:      map[string]int{},
+		Probes:      map[string]int{},
+		crashCh:     make(chan struct{}, 1),
+		finalCh:     map[int]chan struct{}{},
+		primaryDone: make(chan struct{}),
 	}
 	return w
 }
@@ -412,6 +419,31 @@ func (w *World) ReplyDelay() time.Duration {
 	}
 	w.Faults["slow-read-reply"]++
 	return Pick(r, []time.Duration{time.Second, 10 * time.Second, 100 * time.Second, 1000 * time.Second}) + 273*time.Millisecond
+}
+
+// FinalCh returns the channel that is closed when the engine is about to store a
+// terminal state of plan i (clients use it to issue calls right at the end of a plan).
+func (w *World) FinalCh(i int) chan struct{} {
+	w.mu.Lock()
+	defer w.mu.Unlock()
+	ch := w.finalCh[i]
+	if ch == nil {
+		ch = make(chan struct{})
+		w.finalCh[i] = ch
+	}
+	return ch
+}
+
+// SignalFinal closes FinalCh(i) once.
+func (w *World) SignalFinal(i int) {
+	ch := w.FinalCh(i)
+	w.mu.Lock()
+	defer w.mu.Unlock()
+	select {
+	case <-ch:
+	default:
+		close(ch)
+	}
 }
 
 // Yield is a scheduling point inside the engine, in front of an access to shared
